@@ -288,10 +288,25 @@ func (c *compiler) evalFunctionLiteral(node *ast.FunctionLiteral) (interface{}, 
 	return &userFunction{params: params, block: block}, nil
 }
 
+// unknownOperand reports whether err is the one tolerated fault: operand, the
+// condition or the operand of ! == != && ||, is itself a name that is not
+// bound. An unknown name deeper inside it (an argument, an index, the function
+// of a call, an operand of another operator) is a failure of that operation
+// like any other and fails the render.
+func unknownOperand(operand ast.Expression, err error) bool {
+	if _, ok := err.(*ErrUnknownIdentifier); !ok {
+		return false
+	}
+
+	_, ok := operand.(*ast.Identifier)
+
+	return ok
+}
+
 func (c *compiler) evalPrefixExpression(node *ast.PrefixExpression) (interface{}, error) {
 	res, err := c.evalExpression(node.Right)
 	if err != nil {
-		if _, ok := err.(*ErrUnknownIdentifier); !ok {
+		if !unknownOperand(node.Right, err) {
 			return nil, err
 		}
 	}
@@ -307,7 +322,7 @@ func (c *compiler) evalPrefixExpression(node *ast.PrefixExpression) (interface{}
 func (c *compiler) evalIfExpression(node *ast.IfExpression) (interface{}, error) {
 	con, err := c.evalExpression(node.Condition)
 	if err != nil {
-		if _, ok := err.(*ErrUnknownIdentifier); !ok {
+		if !unknownOperand(node.Condition, err) {
 			return nil, err
 		}
 	}
@@ -324,7 +339,7 @@ func (c *compiler) evalElseAndElseIfExpressions(node *ast.IfExpression) (interfa
 	for _, eiNode := range node.ElseIf {
 		eiCon, err := c.evalExpression(eiNode.Condition)
 		if err != nil {
-			if _, ok := err.(*ErrUnknownIdentifier); !ok {
+			if !unknownOperand(eiNode.Condition, err) {
 				return nil, err
 			}
 		}
@@ -646,8 +661,8 @@ func fieldByName(rv reflect.Value, name string) (reflect.Value, error) {
 func (c *compiler) evalInfixExpression(node *ast.InfixExpression) (interface{}, error) {
 	// an unknown identifier counts as nil for '==', '!=', and logical operators;
 	// every other operand error fails the expression
-	tolerated := func(err error) bool {
-		if _, ok := err.(*ErrUnknownIdentifier); !ok {
+	tolerated := func(operand ast.Expression, err error) bool {
+		if !unknownOperand(operand, err) {
 			return false
 		}
 		return node.Operator == "==" || node.Operator == "!=" ||
@@ -655,7 +670,7 @@ func (c *compiler) evalInfixExpression(node *ast.InfixExpression) (interface{}, 
 	}
 
 	lres, err := c.evalExpression(node.Left)
-	if err != nil && !tolerated(err) {
+	if err != nil && !tolerated(node.Left, err) {
 		return nil, err
 	}
 
@@ -667,7 +682,7 @@ func (c *compiler) evalInfixExpression(node *ast.InfixExpression) (interface{}, 
 	}
 
 	rres, err := c.evalExpression(node.Right)
-	if err != nil && !tolerated(err) {
+	if err != nil && !tolerated(node.Right, err) {
 		return nil, err
 	}
 
